@@ -366,7 +366,7 @@ def norm_key(T, k):
   return None
 
 
-def plain_prefix(T, keys):
+def plain_prefix(T, keys, allow_neg=False):
   """(normalised plain keys up to the first SELF, has_special) — None if SKIP/Literal/negatives interfere."""
   out = []
   for k in keys:
@@ -375,7 +375,7 @@ def plain_prefix(T, keys):
         return out
       return None
     n = norm_key(T, k)
-    if n is None or (n[0] == 'i' and n[1] < 0):
+    if n is None or (n[0] == 'i' and n[1] < 0 and not allow_neg):
       return None
     out.append(n)
   return out
@@ -498,152 +498,171 @@ def run_impl(case):
   def law(i, msg):
     laws.append(f'op {i} ({case["ops"][i]["op"]}): {msg}')
 
-  for i, op in enumerate(case['ops']):
-    kind = op['op']
-    if kind == 'normalize':
-      keys = w.keys(op['keys'], op.get('bare', False), op.get('aslist', False))
-      try:
-        out = T.normalize_keys(keys)
-        ops_obs.append({'err': None, 'paths': [w.path_json(k) for k in out]})
-      except Exception as e:  # pylint: disable=broad-except
-        ops_obs.append({'err': err_kind(e)})
-      results.append(NOROOT)
-      continue
-    root = w.objs[op['root']] if isinstance(op['root'], int) else results[op['root']['res']]
-    if root is NOROOT:       # the op this one builds on raised: skipped on both sides
-      ops_obs.append({'skipped': True})
-      results.append(NOROOT)
-      continue
-    value = w.objs[op['value']] if 'value' in op else None
-    in_place = bool(op.get('in_place', False))
-    skip = False
-    if kind in ('get', 'getd', 'set'):
-      ps = keys_paths(op['keys'])
-      skip = any(touches_arr(w, root, p, kind == 'set') for p in ps) or (kind == 'set' and len(ps) > 1 and has_arr(value))
-    elif kind == 'update':
-      skip = any(touches_arr(w, root, p, True) for p, _ in op['pairs']) or \
-          (len(op['pairs']) > 1 and any(has_arr(w.objs[v]) for _, v in op['pairs']))
-    if skip:                 # indexing inside an ndarray leaf is outside the model: skipped on both sides
-      ops_obs.append({'skipped': True})
-      results.append(NOROOT)
-      continue
-    before_nodes = dict(known)
-    nodes(root, before_nodes)
-    if value is not None:
-      nodes(value, before_nodes)
-    snap_shallow = {k: shallow(o) for k, o in before_nodes.items()}
-    snap_deep = copy.deepcopy(root)
-    view = T.TreeMapView(root, strict=strict)
-    obs, res_root = {}, NOROOT
-    try:
-      if kind in ('get', 'getd'):
+  def one_op(i, op):
+      kind = op['op']
+      if kind == 'normalize':
         keys = w.keys(op['keys'], op.get('bare', False), op.get('aslist', False))
-        sent = object()
-        r = view[keys] if kind == 'get' else view.get(keys, sent)
-        if r is sent:
-          obs = {'err': None, 'default': True}
-        elif not isinstance(keys, T.Key) and isinstance(keys, (tuple, list)):
-          obs = {'err': None, 'many': [w.dump(x) for x in r]}
-          if type(r) is not tuple:
-            law(i, f'multi-key read returned {type(r).__name__}, not a tuple')
-          # multi-key reads are aligned with the keys
-          for k, x in zip(keys, r, strict=True):
-            single = read(view, k if isinstance(k, T.Key) else T.Key((k,)))
-            if single[0] != 'ok' or not same(single[1], x):
-              law(i, f'multi-key read of {k!r} is not the single-key read')
-        else:
-          obs = {'err': None, 'one': w.dump(r)}
-      elif kind == 'set':
-        keys = w.keys(op['keys'], op.get('bare', False), op.get('aslist', False))
-        nv = view.set(keys, value) if in_place else view.copy_and_set(keys, value)
-        res_root = nv.data
-        obs = {'err': None, 'res': w.dump(res_root)}
-        if not in_place:
-          _set_laws(T, w, law, i, op, view, nv, keys, value)
-        elif nv is not view:
-          law(i, 'in-place set returned another view')
+        try:
+          out = T.normalize_keys(keys)
+          ops_obs.append({'err': None, 'paths': [w.path_json(k) for k in out]})
+        except Exception as e:  # pylint: disable=broad-except
+          ops_obs.append({'err': err_kind(e)})
+        results.append(NOROOT)
+        return
+      root = w.objs[op['root']] if isinstance(op['root'], int) else results[op['root']['res']]
+      if root is NOROOT:       # the op this one builds on raised: skipped on both sides
+        ops_obs.append({'skipped': True})
+        results.append(NOROOT)
+        return
+      value = w.objs[op['value']] if 'value' in op else None
+      in_place = bool(op.get('in_place', False))
+      skip = False
+      if kind in ('get', 'getd', 'set'):
+        ps = keys_paths(op['keys'])
+        skip = any(touches_arr(w, root, p, kind == 'set') for p in ps) or (kind == 'set' and len(ps) > 1 and has_arr(value))
       elif kind == 'update':
-        pairs = [(w.path(p, op.get('bare', False)), w.objs[v]) for p, v in op['pairs']]
-        other = dict(pairs) if op.get('asdict', False) else pairs
-        nv = view.copy_and_update(other)
-        res_root = nv.data
-        obs = {'err': None, 'res': w.dump(res_root)}
-        # sequential-set reference: later pairs win, earlier incomparable pairs survive
-        for j, (k, v) in enumerate(pairs):
-          pk = plain_prefix(T, list(k) if isinstance(k, T.Key) else [k])
-          if pk is None:
-            continue
-          later = [plain_prefix(T, list(k2) if isinstance(k2, T.Key) else [k2]) for k2, _ in pairs[j + 1:]]
-          if all(l is not None and incomparable(pk, l) for l in later):
-            got = read(nv, k if isinstance(k, T.Key) else T.Key((k,)))
-            if got[0] != 'ok' or not same(got[1], v):
-              law(i, f'after copy_and_update, {k!r} does not read the updated value')
-      elif kind == 'items':
-        its = list(view.items())
-        # a Reserved('SKIP') met as a *dict key* is the string 'SKIP' (only SELF alone denotes the root)
-        obs = {'err': None, 'items': [[canon_items_path(T, w, root, k), w.dump(v)] for k, v in its]}
-        if is_container(root) and plain_dicts(root):
-          want = leaf_paths(T, root)
-          got = [(tuple(k) if isinstance(k, T.Key) else (k,), v) for k, v in its]
-          if len(got) != len(want):
-            law(i, f'items lists {len(got)} leaves, the tree has {len(want)}')
+        skip = any(touches_arr(w, root, p, True) for p, _ in op['pairs']) or \
+            (len(op['pairs']) > 1 and any(has_arr(w.objs[v]) for _, v in op['pairs']))
+      if skip:                 # indexing inside an ndarray leaf is outside the model: skipped on both sides
+        ops_obs.append({'skipped': True})
+        results.append(NOROOT)
+        return
+      before_nodes = dict(known)
+      nodes(root, before_nodes)
+      if value is not None:
+        nodes(value, before_nodes)
+      snap_shallow = {k: shallow(o) for k, o in before_nodes.items()}
+      snap_deep = copy.deepcopy(root)
+      view = T.TreeMapView(root, strict=strict)
+      obs, res_root = {}, NOROOT
+      try:
+        if kind in ('get', 'getd'):
+          keys = w.keys(op['keys'], op.get('bare', False), op.get('aslist', False))
+          sent = object()
+          r = view[keys] if kind == 'get' else view.get(keys, sent)
+          if r is sent:
+            obs = {'err': None, 'default': True}
+          elif not isinstance(keys, T.Key) and isinstance(keys, (tuple, list)):
+            obs = {'err': None, 'many': [w.dump(x) for x in r]}
+            if type(r) is not tuple:
+              law(i, f'multi-key read returned {type(r).__name__}, not a tuple')
+            # multi-key reads are aligned with the keys
+            for k, x in zip(keys, r, strict=True):
+              single = read(view, k if isinstance(k, T.Key) else T.Key((k,)))
+              if single[0] != 'ok' or not same(single[1], x):
+                law(i, f'multi-key read of {k!r} is not the single-key read')
           else:
-            for (gp, gv), (wp, wv) in zip(got, want):
-              if len(gp) != len(wp) or any(not (a is b or (norm_key(T, a) is not None and norm_key(T, a) == norm_key(T, b)
-                                                          and isinstance(a, T.Index) == isinstance(b, T.Index)))
-                                          for a, b in zip(gp, wp)):
-                law(i, f'items path {gp!r} where DFS order has {wp!r}')
-                break
-              if not same(gv, wv):
-                law(i, f'items value at {gp!r} is not the leaf')
-                break
-          for k, v in its:
-            back = read(view, k)
-            if back[0] != 'ok' or not same(back[1], v):
-              law(i, f'path {k!r} listed by items does not read back its leaf')
-          if [k for k, _ in its] != list(view.keys()) or not all(same(a, b) for (_, a), b in zip(its, view.values())):
-            law(i, 'keys()/values() disagree with items()')
-      elif kind == 'apply':
-        fn = LEAF_FNS[op['fn']]
-        mv = T.TreeMapView(root, map_fn=fn, strict=strict)
-        res_root = mv.apply()
-        obs = {'err': None, 'res': w.dump(res_root)}
-        if fn is None:
-          if res_root is not root:
-            law(i, 'apply() without map_fn did not return the data itself')
-        elif is_container(root) and plain_dicts(root):
-          want = ref_map(fn, root)
-          if not deq(res_root, want):
-            law(i, f'apply({op["fn"]}) = {res_root!r}, leaf-wise map = {want!r}')
+            obs = {'err': None, 'one': w.dump(r)}
+        elif kind == 'set':
+          keys = w.keys(op['keys'], op.get('bare', False), op.get('aslist', False))
+          nv = view.set(keys, value) if in_place else view.copy_and_set(keys, value)
+          res_root = nv.data
+          obs = {'err': None, 'res': w.dump(res_root)}
+          if not in_place:
+            _set_laws(T, w, law, i, op, view, nv, keys, value)
+          elif nv is not view:
+            law(i, 'in-place set returned another view')
+        elif kind == 'update':
+          pairs = [(w.path(p, op.get('bare', False)), w.objs[v]) for p, v in op['pairs']]
+          other = dict(pairs) if op.get('asdict', False) else pairs
+          nv = view.copy_and_update(other)
+          res_root = nv.data
+          obs = {'err': None, 'res': w.dump(res_root)}
+          # sequential-set reference: later pairs win, earlier incomparable pairs survive
+          for j, (k, v) in enumerate(pairs):
+            pk = plain_prefix(T, list(k) if isinstance(k, T.Key) else [k])
+            if pk is None:
+              continue
+            later = [plain_prefix(T, list(k2) if isinstance(k2, T.Key) else [k2]) for k2, _ in pairs[j + 1:]]
+            if all(l is not None and incomparable(pk, l) for l in later):
+              got = read(nv, k if isinstance(k, T.Key) else T.Key((k,)))
+              if got[0] != 'ok' or not same(got[1], v):
+                law(i, f'after copy_and_update, {k!r} does not read the updated value')
+        elif kind == 'items':
+          its = list(view.items())
+          # a Reserved('SKIP') met as a *dict key* is the string 'SKIP' (only SELF alone denotes the root)
+          obs = {'err': None, 'items': [[canon_items_path(T, w, root, k), w.dump(v)] for k, v in its]}
+          if is_container(root) and plain_dicts(root):
+            want = leaf_paths(T, root)
+            got = [(tuple(k) if isinstance(k, T.Key) else (k,), v) for k, v in its]
+            if len(got) != len(want):
+              law(i, f'items lists {len(got)} leaves, the tree has {len(want)}')
+            else:
+              for (gp, gv), (wp, wv) in zip(got, want):
+                if len(gp) != len(wp) or any(not (a is b or (norm_key(T, a) is not None and norm_key(T, a) == norm_key(T, b)
+                                                            and isinstance(a, T.Index) == isinstance(b, T.Index)))
+                                            for a, b in zip(gp, wp)):
+                  law(i, f'items path {gp!r} where DFS order has {wp!r}')
+                  break
+                if not same(gv, wv):
+                  law(i, f'items value at {gp!r} is not the leaf')
+                  break
+            for k, v in its:
+              back = read(view, k)
+              if back[0] != 'ok' or not same(back[1], v):
+                law(i, f'path {k!r} listed by items does not read back its leaf')
+            if [k for k, _ in its] != list(view.keys()) or not all(same(a, b) for (_, a), b in zip(its, view.values())):
+              law(i, 'keys()/values() disagree with items()')
+        elif kind == 'apply':
+          fn = LEAF_FNS[op['fn']]
+          mv = T.TreeMapView(root, map_fn=fn, strict=strict)
+          res_root = mv.apply()
+          obs = {'err': None, 'res': w.dump(res_root)}
+          if fn is None:
+            if res_root is not root:
+              law(i, 'apply() without map_fn did not return the data itself')
+          elif is_container(root) and plain_dicts(root):
+            want = ref_map(fn, root)
+            if not deq(res_root, want):
+              law(i, f'apply({op["fn"]}) = {res_root!r}, leaf-wise map = {want!r}')
+        else:
+          raise ValueError(kind)
+      except (KeyError, IndexError, TypeError, ValueError, AssertionError, RecursionError) as e:
+        obs = {'err': err_kind(e)}
+        res_root = NOROOT
+      # --- no-mutation / footprint, evaluated on the live objects
+      changed = [k for k, o in before_nodes.items() if shallow(o) != snap_shallow[k]]
+      if kind != 'set' or not in_place:
+        if changed:
+          law(i, f'{len(changed)} pre-existing object(s) were mutated')
+        if not deq(root, snap_deep):
+          law(i, 'the viewed data differs from its deep copy taken before the operation')
       else:
-        raise ValueError(kind)
-    except (KeyError, IndexError, TypeError, ValueError, AssertionError, RecursionError) as e:
-      obs = {'err': err_kind(e)}
-      res_root = NOROOT
-    # --- no-mutation / footprint, evaluated on the live objects
-    changed = [k for k, o in before_nodes.items() if shallow(o) != snap_shallow[k]]
-    if kind != 'set' or not in_place:
-      if changed:
-        law(i, f'{len(changed)} pre-existing object(s) were mutated')
-      if not deq(root, snap_deep):
-        law(i, 'the viewed data differs from its deep copy taken before the operation')
-    else:
-      allowed = _path_objects(T, w, root, op, snap_deep)
-      bad = [k for k in changed if k not in allowed]
-      if bad:
-        law(i, 'in-place set changed an object that is not on the key path')
-    if kind in ('set', 'update', 'apply'):
-      obs['orig'] = w.dump(root)
-      obs['changed'] = changed
-    ro = labels.obs(obs)
-    # keep every newly labelled object alive so ids are never reused
-    if res_root is not NOROOT:
-      nodes(res_root, known)
-    for x in (obs.get('many') or []):
-      pass
-    ops_obs.append(ro)
-    results.append(res_root)
-    _KEEP.append((view, res_root))
+        allowed = _path_objects(T, w, root, op, snap_deep)
+        bad = [k for k in changed if k not in allowed]
+        if bad:
+          law(i, 'in-place set changed an object that is not on the key path')
+      if kind in ('set', 'update', 'apply'):
+        obs['orig'] = w.dump(root)
+        obs['changed'] = changed
+      ro = labels.obs(obs)
+      # keep every newly labelled object alive so ids are never reused
+      if res_root is not NOROOT:
+        nodes(res_root, known)
+      for x in (obs.get('many') or []):
+        pass
+      ops_obs.append(ro)
+      results.append(res_root)
+      _KEEP.append((view, res_root))
+
+  cyclic = False
+  for i, op in enumerate(case['ops']):
+    if cyclic:
+      ops_obs.append({'skipped': True})
+      results.append(NOROOT)
+      continue
+    n_obs, n_res = len(ops_obs), len(results)
+    try:
+      one_op(i, op)
+    except RecursionError:
+      # only a broken implementation gets here (a copying operation that writes into the viewed data can
+      # close a cycle); it is a violation of the no-mutation law, not a harness failure
+      del ops_obs[n_obs:]
+      del results[n_res:]
+      law(i, 'the operation produced cyclic data (RecursionError while observing it)')
+      ops_obs.append({'err': 'RecursionError(observer)'})
+      results.append(NOROOT)
+      cyclic = True
   out = {'ops': ops_obs, 'laws': laws}
   _KEEP.clear()
   return out
@@ -697,6 +716,12 @@ def _set_laws(T, w, law, i, op, view, nv, keys, value):
     if not deq(nv.data, root):
       law(i, f'a SKIP key changed the data: {nv.data!r} vs {root!r}')
   sets = [n for n in norm if n[0] == 'set']
+  # get-after-set holds for negative indices too (a single path; the same key object reads the same slot)
+  if len(plist) == 1 and len(sets) == 1 and sets[0][3] is None and \
+      plain_prefix(T, list(sets[0][1]), allow_neg=True) is not None:
+    got = read(nv, sets[0][1])
+    if got[0] != 'ok' or not same(got[1], sets[0][2]):
+      law(i, f'get after copy_and_set({sets[0][1]!r}) returned {got!r}, not the value set')
   if any(n[3] is None or any(t == 'i' and x < 0 for t, x in n[3]) for n in sets):
     return      # Literal / inner SKIP / negative indices: outside the get/set laws
   for j, (_, k, v, pk) in enumerate(sets):
@@ -757,7 +782,57 @@ def oracle(case, obs):
   return obs['laws'][0] if obs['laws'] else None
 
 
+_STATS = {}
+
+
+def _stat(key, sub, n=1):
+  d = _STATS.setdefault(key, {})
+  d[str(sub)] = d.get(str(sub), 0) + n
+
+
+def extra(ctx):
+  """Publishes what the run covered (collected while the runner walked the observations)."""
+  for k, d in _STATS.items():
+    for sub, n in d.items():
+      ctx.count(k, sub, n)
+  need = {'outcome': ['set:ok', 'set:KeyError', 'set:TypeError', 'set:ValueError', 'get:ok', 'get:KeyError',
+                      'get:IndexError', 'get:TypeError', 'items:ok', 'apply:ok', 'update:ok', 'inplace:ok'],
+          'sharing': ['result shares cells with input', 'result has fresh cells']}
+  missing = [f'{k}/{x}' for k, xs in need.items() for x in xs if not _STATS.get(k, {}).get(x)]
+  if missing:
+    ctx.notes.append('coverage holes: ' + ', '.join(missing))
+
+
+def _walk_ids(d, acc):
+  if isinstance(d, dict):
+    if 'id' in d:
+      acc.append(d['id'])
+    for v in d.get('rs', []):
+      _walk_ids(v, acc)
+    for _, v in d.get('es', []):
+      _walk_ids(v, acc)
+
+
 def nontrivial(case, obs):
+  for op, o in zip(case['ops'], obs['ops']):
+    kind = 'inplace' if op.get('in_place') else op['op']
+    if o.get('skipped'):
+      _stat('outcome', kind + ':skipped')
+      continue
+    _stat('outcome', f"{kind}:{o.get('err') or 'ok'}")
+    if 'res' in o and not op.get('in_place'):
+      ids = []
+      _walk_ids(o['res'], ids)
+      if any(i.startswith('cell#') for i in ids):
+        _stat('sharing', 'result shares cells with input')
+      if any(i.startswith('fresh#') for i in ids):
+        _stat('sharing', 'result has fresh cells')
+    if o.get('changed'):
+      _stat('sharing', 'in-place op changed %d cell(s)' % len(o['changed']))
+  return _nontrivial(case, obs)
+
+
+def _nontrivial(case, obs):
   root = case['heap'][case['root']] if case.get('root') is not None else None
   if root is None or root['t'] not in ('dict', 'list', 'tuple'):
     return False
@@ -1068,7 +1143,7 @@ def gen_cases(ctx):
     yield c
   ctx.count('stage', 'exhaustive', n)
   rng = ctx.rng
-  total = 2500 if ctx.quick else 60000
+  total = 8000 if ctx.quick else 150000
   for i in range(total):
     case, feats = make_case(rng, malformed=(i % 8 == 0))
     for f in feats:
